@@ -144,6 +144,13 @@ def write_evidence(prop, tier, ctx: Ctx, wall, explanation, assumptions, violati
         "known_findings": known_hits,
         "notes": ctx.notes,
     }
+    try:
+        from . import absint
+
+        cov["abstract_evaluations"] = absint.STATS["evaluations"]
+        cov["paths_enumerated"] = absint.STATS["paths"]
+    except Exception:
+        pass
     if selftest is not None:
         cov["selftest"] = selftest
     if extra:
